@@ -49,8 +49,10 @@ fn load_list(path: &Path, prefix: &str) -> Result<Vec<Entry>, String> {
 pub struct Corpus {
     pub k0: Vec<Entry>,
     pub finite: Vec<Entry>,
-    /// generated family, n <= 4 (committed list)
+    /// generated family: all symbols with n <= 4 (ids G..), followed from
+    /// index `extra_from` on by the filter-passing members with n = 5, 6 (ids H..)
     pub g: Vec<Entry>,
+    pub extra_from: usize,
     /// members of G with finite group and a manifold universal cover
     pub finite_small: Vec<Entry>,
     /// (symbol, word): closed manifolds with non-trivial finite fundamental group
@@ -64,6 +66,8 @@ impl Corpus {
         let finite = load_list(&root.join("known_finite.txt"), "F")?;
         let mut g = load_list(&root.join("G4.txt"), "G")?;
         g.retain(|e| Sym::parse(&e.text).map(|s| s.n <= max_g_size).unwrap_or(false));
+        let extra_from = g.len();
+        g.extend(load_list(&root.join("G56_filter_passing.txt"), "H")?);
         let finite_small = load_list(&root.join("finite_small.txt"), "S")?;
         let mut manifold_covers = vec![];
         let path = root.join("finite_manifold_covers.txt");
@@ -81,7 +85,7 @@ impl Corpus {
             let id = format!("M{}", manifold_covers.len());
             manifold_covers.push((Entry { id, text: s.to_text(), provenance: parts[2..].join(" ") }, word));
         }
-        Ok(Corpus { k0, finite, g, finite_small, manifold_covers })
+        Ok(Corpus { k0, finite, g, extra_from, finite_small, manifold_covers })
     }
 }
 
